@@ -47,6 +47,8 @@ def _procedural(rng):
         ("ring_open", lambda: P.ring(rng.randint(3, 9), rng.uniform(0.0, 2.0), open=True)),
         ("ring_closed", lambda: P.ring(rng.randint(3, 9), rng.uniform(0.0, 2.0))),
         ("flat_ring", lambda: P.flat_ring(rng.randint(3, 9), rng.uniform(0.0, 2.0))),
+        ("ring_multi_cover", lambda: P.ring(rng.randint(3, 7), rng.uniform(0.0, 1.5), open=rng.random() < 0.5, n_cover=rng.randint(2, 3))),
+        ("flat_ring_multi_cover", lambda: P.flat_ring(rng.randint(3, 7), rng.uniform(0.0, 1.5), n_cover=rng.randint(2, 3))),
         ("triangle", lambda: P.triangle(*_fresh(r(), r(), r()))),
         ("quad", lambda: P.quad(*_fresh(r(), r(), r()), triangulate=rng.random() < 0.5)),
         ("unit_grid", lambda: P.unit_grid(rng.randint(2, 5), rng.randint(2, 5), triangulate=rng.random() < 0.5) if False else P.unit_grid(3, 3, triangulate=rng.random() < 0.5)),
